@@ -66,12 +66,14 @@ theorem J.ite {L : Nat} {cnd : Prop} [Decidable cnd] {a b a' b' : R St} {Q : St 
 /-! ## changes that keep the coupling -/
 
 theorem W.congr {c p c' p' : St} (h : W c p) (h1 : c'.prev = c.prev) (h2 : c'.prevPos = c.prevPos)
-    (h3 : p'.prev = p.prev) (h4 : p'.prevPos = p.prevPos) : W c' p' := by
+    (h3 : p'.prev = p.prev) (h4 : p'.prevPos = p.prevPos)
+    (hbc : BOk c → BOk c' := by exact fun hb => ⟨hb.rsize, hb.rcur, hb.bsize⟩)
+    (hbp : BOk p → BOk p' := by exact fun hb => ⟨hb.rsize, hb.rcur, hb.bsize⟩) : W c' p' := by
   have e1 : ∀ k, ent c' k = ent c k := fun k => by simp [ent, h1, h2]
   have e2 : ∀ k, ent p' k = ent p k := fun k => by simp [ent, h3, h4]
   obtain ⟨d, hd, hag, ha, hb⟩ := h.agree
   exact ⟨⟨by rw [h1]; exact h.vc.size, by rw [h2]; exact h.vc.pos⟩, ⟨by rw [h3]; exact h.vp.size, by rw [h4]; exact h.vp.pos⟩,
-    d, hd, fun k hk => by rw [e1, e2]; exact hag k hk, by rw [e1]; exact ha, by rw [e2]; exact hb⟩
+    hbc h.bc, hbp h.bp, d, hd, fun k hk => by rw [e1, e2]; exact hag k hk, by rw [e1]; exact ha, by rw [e2]; exact hb⟩
 
 theorem ringWrite_fields (bs : List Nat) (s : St) :
     (s.ringWrite bs).prev = s.prev ∧ (s.ringWrite bs).prevPos = s.prevPos ∧ (s.ringWrite bs).info = s.info ∧
@@ -84,6 +86,20 @@ theorem ringWrite_fields (bs : List Nat) (s : St) :
     unfold St.ringWrite
     have := ih { s with ring := s.ring.set s.ringCur b, ringCur := (s.ringCur + 1) % ringSize }
     simpa using this
+
+theorem ringWrite_bok (bs : List Nat) (s : St) (h : BOk s) : BOk (s.ringWrite bs) := by
+  induction bs generalizing s with
+  | nil => exact h
+  | cons b bs ih =>
+    unfold St.ringWrite
+    refine ih _ ⟨by simp [Tbl.set, h.rsize], ?_, h.bsize⟩
+    simp only [ringSize_eq]; omega
+
+theorem foldSet_size (bs : List Nat) (t : Tbl Nat) (k : Nat) :
+    (bs.foldl (fun (acc : Tbl Nat × Nat) b => (acc.1.set acc.2 b, acc.2 + 1)) (t, k)).1.data.size = t.data.size := by
+  induction bs generalizing t k with
+  | nil => rfl
+  | cons b bs ih => simp only [List.foldl_cons]; rw [ih]; simp [Tbl.set]
 
 theorem write_counting (c : St) (bs : List Nat) (h : c.counting = true) :
     c.write bs = .ok (({ c with info := { c.info with progLength := c.info.progLength + bs.length } } : St).ringWrite bs) := by
@@ -112,7 +128,9 @@ theorem J_write {L : Nat} {c p : St} (h : Rel L c p) (bs1 bs2 : List Nat) (hl : 
   have hg := h.gross; have hp := h.pos; have hlen := h.len
   rw [if_neg (by omega)]
   simp only [wp_ok]
-  refine ⟨by rw [r4]; exact h.cc, h.pc, h.w.congr r1 r2 rfl rfl, ?_, ?_, h.len, by rw [r5]; exact h.nb, by rw [r6]; exact h.nc,
+  refine ⟨by rw [r4]; exact h.cc, h.pc, h.w.congr r1 r2 rfl rfl
+      (fun hb => ringWrite_bok _ _ ⟨hb.rsize, hb.rcur, hb.bsize⟩)
+      (fun hb => ⟨hb.rsize, hb.rcur, by simp only [foldSet_size]; exact hb.bsize⟩), ?_, ?_, h.len, by rw [r5]; exact h.nb, by rw [r6]; exact h.nc,
     by rw [r7]; exact h.cb, by rw [r8]; exact h.cct, by rw [r9]; exact h.sd⟩
   · simp only [pl, r3]; simp only [pl] at hg; omega
   · simp only; omega
@@ -121,7 +139,8 @@ theorem Rel.moveFwd {L : Nat} {c p : St} (h : Rel L c p) (k : Nat) : Rel L (c.mo
   unfold St.moveFwd
   rw [if_pos h.cc, if_neg (by simp [h.pc])]
   have hg := h.gross; have hp := h.pos
-  exact ⟨h.cc, h.pc, h.w.congr rfl rfl rfl rfl, by simp only [pl] at *; omega, by simp only; omega, h.len, h.nb, h.nc, h.cb, h.cct, h.sd⟩
+  exact ⟨h.cc, h.pc, h.w.congr rfl rfl rfl rfl (fun hb => ⟨hb.rsize, by simp only [ringSize_eq]; omega, hb.bsize⟩),
+    by simp only [pl] at *; omega, by simp only; omega, h.len, h.nb, h.nc, h.cb, h.cct, h.sd⟩
 
 theorem Rel.accumulate {L : Nat} {c p : St} (h : Rel L c p) (op : Nat) (off : Int) :
     Rel L (c.accumulate op off) (p.accumulate op off) :=
@@ -150,8 +169,8 @@ theorem J_moveBack {L : Nat} {c p : St} (h : Rel L c p) (k1 k2 : Nat) (hk : True
   · simp [ECO]
   · have hp := h.pos
     rw [wp_ok]
-    exact ⟨⟨h.cc, h.pc, h.w.congr rfl rfl rfl rfl, h.gross, by simp only; omega, h.len, h.nb, h.nc, h.cb, h.cct, h.sd⟩,
-      rfl, rfl, rfl, rfl⟩
+    exact ⟨⟨h.cc, h.pc, h.w.congr rfl rfl rfl rfl (fun hb => ⟨hb.rsize, by simp only [ringSize_eq]; omega, hb.bsize⟩),
+      h.gross, by simp only; omega, h.len, h.nb, h.nc, h.cb, h.cct, h.sd⟩, rfl, rfl, rfl, rfl⟩
 
 theorem J_setAt {L : Nat} {c p : St} (h : Rel L c p) (a1 a2 : Nat) (bs1 bs2 : List Nat) :
     J L (c.setAt a1 bs1) (p.setAt a2 bs2) (Rel L) := by
@@ -164,11 +183,12 @@ theorem J_setAt {L : Nat} {c p : St} (h : Rel L c p) (a1 a2 : Nat) (bs1 bs2 : Li
   split
   · simp [ECO]
   · simp only [wp_ok]
-    exact ⟨h.cc, h.pc, h.w.congr rfl rfl rfl rfl, h.gross, h.pos, h.len, h.nb, h.nc, h.cb, h.cct, h.sd⟩
+    exact ⟨h.cc, h.pc, h.w.congr rfl rfl rfl rfl (fun hb => ⟨hb.rsize, hb.rcur, hb.bsize⟩)
+      (fun hb => ⟨hb.rsize, hb.rcur, by simp only [foldSet_size]; exact hb.bsize⟩), h.gross, h.pos, h.len, h.nb, h.nc, h.cb, h.cct, h.sd⟩
 
 theorem J_clearPrev {L : Nat} {c p : St} (h : Rel L c p) : J L c.clearPrev p.clearPrev (Rel L) := by
   rw [clearPrev_eq c h.w.vc, clearPrev_eq p h.w.vp]
-  exact J.ok ⟨h.cc, h.pc, W.cleared h.w.vc h.w.vp, h.gross, h.pos, h.len, h.nb, h.nc, h.cb, h.cct, h.sd⟩
+  exact J.ok ⟨h.cc, h.pc, W.cleared h.w, h.gross, h.pos, h.len, h.nb, h.nc, h.cb, h.cct, h.sd⟩
 
 @[simp] theorem le_length (k n : Nat) : (le k n).length = k := by
   induction k generalizing n with
